@@ -1,0 +1,19 @@
+//go:build verif
+
+package leveldb
+
+// Contracts for the govc verifier (/verif). Comment-only.
+
+// assumed (not verified): copying the leveldb options into their JSON form writes only its receiver
+//@ func (ldbo *levelDBOptions) Marshal
+//@   opts trusted
+//@   ensures forall q *levelDBOptions :: q != ldbo ==> *q == old(*q)
+//@   modifies heap(levelDBOptions)
+
+// ---- C15: the section's saved form ----
+//@ func (cfg *Config) toJSONConfig
+//@   property C15
+//@   requires cfg != nil
+//@   ensures res != nil && fresh(res)
+//@   ensures [folder-omitted-when-default] res.Folder == ite(cfg.Folder != DefaultSubFolder, cfg.Folder, "")
+//@   modifies nothing
